@@ -70,12 +70,14 @@ void run_printf(Ctx &c, std::string in, unsigned variant) {
 	// every slot is a valid pointer to a NUL-terminated string that is also a terminated wide string
 	static const char strbuf[16] __attribute__((aligned(8))) = {'a', 'b', 'c', 0, 0, 0, 0, 0, 0, 0, 0, 0, 0, 0, 0, 0};
 	uint64_t *area = (uint64_t *)malloc(nslots * 8); c.arena.push_back({area, nullptr});
-	for(size_t i = 0; i < nslots; i++) area[i] = variant == 0 ? (uint64_t)(uintptr_t)strbuf : (uint64_t)(uintptr_t)(strbuf + 4);   // "abc" / "" (both also aligned, terminated wide strings: %ls reads them as wchar_t)
+	// variant 2: every argument is 0 - as a pointer that is the null pointer, for which the library prints "(null)" (narrow and wide)
+	if(variant == 2) c.tag("printf-null-pointer-args");
+	for(size_t i = 0; i < nslots; i++) area[i] = variant == 2 ? 0 : variant == 0 ? (uint64_t)(uintptr_t)strbuf : (uint64_t)(uintptr_t)(strbuf + 4);   // "abc" / "" (both also aligned, terminated wide strings: %ls reads them as wchar_t)
 	frg::va_struct vs;
 	make_va_list(vs.args, area);
 	size_t nargs = nslots + 10;
 	frg::arg *arg_list = (frg::arg *)malloc(sizeof(frg::arg) * nargs); c.arena.push_back({arg_list, nullptr});
-	for(size_t i = 0; i < nargs; i++) arg_list[i].p = (void *)strbuf;
+	for(size_t i = 0; i < nargs; i++) arg_list[i].p = variant == 2 ? nullptr : (void *)strbuf;
 	vs.arg_list = arg_list;
 	CountSink sink;
 	const char *f = exact(c, in, true);
@@ -183,6 +185,22 @@ void run_to_number(Ctx &c, const std::string &in, unsigned variant) {
 		case 4: { auto r = v.to_number<short>(); (void)(bool)r; break; }
 		default: { auto r = v.to_number<signed char>(); (void)(bool)r; break; }
 		}
+		// the same input as a view of wider character types; bytes >= 0x80 become the extremes of the type (most negative / largest code units)
+		{
+			auto widen = [&](auto tag) { using Ch = decltype(tag); size_t n = in.size(); Ch *p = (Ch *)malloc(n * sizeof(Ch) + 1); c.arena.push_back({p, nullptr});
+				for(size_t i = 0; i < n; i++) { unsigned char b = (unsigned char)in[i]; Ch u = (Ch)b;
+					if(b >= 0x80) { using U = std::make_unsigned_t<Ch>; U top = (U)((U)1 << (8 * sizeof(Ch) - 1)); u = (Ch)((b & 1) ? (U)(top + (U)(b & 0x3f)) : (b & 2) ? (U)~(U)0 - (U)(b & 0x3f) : (U)(top - 1 - (U)(b & 0x3f))); }
+					p[i] = u; }
+				return frg::basic_string_view<Ch>(p, n); };
+			auto w = widen(wchar_t{}); auto r1 = w.to_number<int>(); (void)(bool)r1; auto r2 = w.to_number<uint64_t>(); (void)(bool)r2;
+			auto i32 = widen(int{}); auto r3 = i32.to_number<long>(); (void)(bool)r3;
+			auto i64 = widen((long long)0); auto r4 = i64.to_number<int>(); (void)(bool)r4;
+			auto u16 = widen(char16_t{}); auto r5 = u16.to_number<short>(); (void)(bool)r5;
+			auto u32 = widen(char32_t{}); auto r6 = u32.to_number<unsigned>(); (void)(bool)r6;
+			bool digits = !in.empty(); for(unsigned char ch : in) if(ch < '0' || ch > '9') digits = false;
+			if(digits && in.size() <= 9) { unsigned long long ev = strtoull(in.c_str(), nullptr, 10); VCHECK(c, "C20", r2 && *r2 == ev && r6 && *r6 == ev, "to_number on a wide view of \"%s\" differs from the narrow result", in.c_str()); }
+			c.tag("to_number-wide-views");
+		}
 	} catch(Panic &) { panicked = true; }
 	bool digits = !in.empty(); for(unsigned char ch : in) if(ch < '0' || ch > '9') digits = false;
 	c.nontrivial = in.size() >= 2;
@@ -220,7 +238,7 @@ void verif_case(Ctx &c) {
 	if(long_run) c.tag("long-literal-run");
 	panicked = false;
 	switch(parser) {
-	case 0: run_printf(c, in, variant % 2); break;
+	case 0: run_printf(c, in, variant % 3); break;
 	case 1: run_fmt(c, in, variant % 3); break;
 	case 2: run_cmdline(c, in, variant % 5); break;
 	default: run_to_number(c, in, variant); break;
@@ -267,6 +285,7 @@ void verif_enum(Enum &e) {
 		return true;
 	};
 	if(!all(0, "%$*.-+01 9lhdscx'#", th ? 5 : 4, "printf_format: all strings over \"%$*.-+01 9lhdscx'#\" up to the bound")) return;
+	if(!all(0 + 8, "%$*.-1lsc", th ? 5 : 4, "printf_format with null pointer arguments: all strings over \"%$*.-1lsc\" up to the bound")) return;
 	if(!all(1, "{}:019xc", th ? 6 : 5, "fmt: all strings over \"{}:019xc\" up to the bound")) return;
 	if(!all(1 + 4, "{}:019xc", 4, "fmt without arguments: all strings over \"{}:019xc\" up to length 4")) return;
 	if(!all(2, "\" =a1", th ? 8 : 7, "parse_arguments (table 0): all strings over '\" =a1' up to the bound")) return;
